@@ -355,10 +355,12 @@ def observe(cd, idmap, al):
         "intras": [tid(t) for t in cd.intra_transaction_set],
         "tev": [tid(t) for t in cd.taxable_event_set],
         "ppu": al.ratio(cd.price_per_unit),
+        # the part of every lot shown that rp2 counts as sold (its percentage times the lot amount)
+        "sold": [[tid(t), al.amt(cd.get_in_lot_sold_percentage(t) * t.crypto_in)] for t in cd.in_transaction_set],
     }
 
 
-_EMPTY = {"fr": [], "lab": [], "yr": [], "bal": [], "ins": [], "outs": [], "intras": [], "tev": [], "ppu": [0, 1]}
+_EMPTY = {"fr": [], "lab": [], "yr": [], "bal": [], "ins": [], "outs": [], "intras": [], "tev": [], "ppu": [0, 1], "sold": []}
 
 
 def do_job(job):
